@@ -130,6 +130,23 @@ def monitor(run):
             if ua and PC.thr(cfg, c, b):
                 bad.append((i, "due-batch-waits: nothing in flight, %d msgs/%d bytes of sends %r waiting, threshold n=%r b=%r met"
                             % (c, b, ua, PC.thresholds(cfg)[0], PC.thresholds(cfg)[1])))
+    # the time limit: the period handed to the reactor for the periodic call is batch_every_t, float-exact at the
+    # start, and every re-arming lands on a whole multiple of it (clause "no longer than one period")
+    clock = run.clock
+    want = float(cfg["t"]) if (cfg["batch"] and cfg["t"]) else None
+    if want is None:
+        if clock.looper_delays:
+            bad.append((0, "period: a periodic call was started (delays %r) although no time limit is configured" % (clock.looper_delays[:3],)))
+    else:
+        if not clock.looper_delays:
+            bad.append((0, "period: batch_every_t=%r but no periodic call was started" % (cfg["t"],)))
+        elif float(clock.looper_delays[0]).hex() != want.hex():
+            bad.append((0, "period: the periodic call was started with delay %r, batch_every_t is %r" % (clock.looper_delays[0], cfg["t"])))
+        for (d, (now, deadline)) in list(zip(clock.looper_delays, clock.looper_times))[1:]:
+            q = deadline / want
+            if not (0 < d <= want * (1 + 1e-12)) or abs(q - round(q)) > 1e-9 * max(1.0, abs(q)):
+                bad.append((0, "period: periodic call re-armed at t=%r for t=%r (delay %r), not a multiple of batch_every_t=%r" % (now, deadline, d, cfg["t"])))
+                break
     for sid, at in outcomes.items():
         if len(at) > 1:
             bad.append((at[1], "outcome-twice: send %d resolved at steps %r" % (sid, at)))
